@@ -26,6 +26,7 @@ type Config struct {
 	CheckEvery int    `json:"check_every,omitempty"` // full-contents check every n ops (default 1)
 	Mirror    string  `json:"mirror,omitempty"` // "file": every completed Store is also written through the real file store to a scratch directory
 	Extra     string  `json:"extra,omitempty"` // generator note ("giant": one node of hundreds of entries)
+	CbOnly    string  `json:"cbonly,omitempty"` // "unmarshal": only RemoteConfig.Unmarshal is set (a number-preserving JSON decoder); "marshal": only RemoteConfig.Marshal is set
 	CbFaults  bool    `json:"cbfaults,omitempty"` // Marshal/Unmarshal/KeyCompare are the counting wrappers; some inserts run with one Marshal call (outside any comparison) failing
 	CmpScale  int     `json:"cmpscale,omitempty"` // loader KeyCompare returns CmpScale * sign (a comparator need not return exactly -1/0/1)
 }
@@ -148,7 +149,16 @@ func (c *Config) MarshalFn() func(interface{}) ([]byte, error) {
 	return json.Marshal
 }
 
+func unmarshalUseNumber(b []byte, v interface{}) error {
+	d := json.NewDecoder(bytes.NewReader(b))
+	d.UseNumber()
+	return d.Decode(v)
+}
+
 func (c *Config) UnmarshalFn() func([]byte, interface{}) error {
+	if c.CbOnly == "unmarshal" {
+		return unmarshalUseNumber
+	}
 	switch c.Marshaler {
 	case "gob":
 		return unmarshalGob
@@ -183,6 +193,12 @@ func (c *Config) RemoteConfig(kd *KeyDialect, vd *ValDialect, p mast.Persist, ca
 	if c.Marshaler != "json" && c.Marshaler != "" {
 		rc.Marshal = c.MarshalFn()
 		rc.Unmarshal = c.UnmarshalFn()
+	}
+	switch c.CbOnly {
+	case "unmarshal":
+		rc.Marshal, rc.Unmarshal = nil, unmarshalUseNumber
+	case "marshal":
+		rc.Marshal, rc.Unmarshal = json.Marshal, nil
 	}
 	if cb != nil {
 		if cb.Marshal != nil {
